@@ -51,7 +51,11 @@ def common_range(lib, groups):
 
 def outcome(fn, *a, **k):
     """('ok', value) | ('exc', ExceptionClassName)"""
+    keep = k.pop('_keep_warnings', False)
     try:
+        if keep:
+            with contextlib.redirect_stdout(io.StringIO()):
+                return ('ok', fn(*a, **k))
         with quiet():
             return ('ok', fn(*a, **k))
     except Exception as e:     # noqa
